@@ -1,1 +1,113 @@
-// harnesses: types
+// harnesses over /repo/src/types.rs  (C11-H1, C16-H1)
+use std::io::Cursor;
+
+/// C11-H1: Range::matches == (lengths equal and number of common leading bits >= prefix length), for every base,
+/// address, length 0..=16 and prefix length 0..=255 (over-long prefixes included). Complete: no bound.
+#[cfg_attr(kani, kani::proof, kani::unwind(130))]
+pub fn c11_matches_is_prefix_match() {
+    let base: [u8; 16] = kani::any();
+    let addr: [u8; 16] = kani::any();
+    let blen: u8 = kani::any();
+    let alen: u8 = kani::any();
+    let prefix_len: u8 = kani::any();
+    kani::assume(blen <= 16 && alen <= 16);
+    let r = Range { base: Address { data: base, len: blen }, prefix_len };
+    let got = r.matches(Address { data: addr, len: alen });
+    // bit-by-bit reference
+    let expect = if blen != alen {
+        false
+    } else {
+        let nbits = (alen as usize) * 8;
+        let mut common = 0usize;
+        let mut i = 0;
+        while i < nbits {
+            let ba = (addr[i / 8] >> (7 - (i % 8))) & 1;
+            let bb = (base[i / 8] >> (7 - (i % 8))) & 1;
+            if ba != bb {
+                break;
+            }
+            common += 1;
+            i += 1;
+        }
+        common >= prefix_len as usize
+    };
+    assert!(got == expect);
+    vcover!(got && prefix_len == 128, "full_ipv6_match");
+    vcover!(!got && alen == blen && prefix_len > 0, "mismatch");
+    vcover!(got && prefix_len == 0, "default_route");
+    witness!();
+}
+
+/// C16-H1a: Range::write_to -> Range::read_from is the identity for the given address length
+fn range_roundtrip(len: u8) {
+    let data: [u8; 16] = kani::any();
+    let prefix_len: u8 = kani::any();
+    let r = Range { base: Address { data, len }, prefix_len };
+    let mut buf = [0u8; 20];
+    {
+        let mut c = Cursor::new(&mut buf[..]);
+        r.write_to(&mut c);
+        assert!(c.position() as usize == len as usize + 2);
+    }
+    assert!(buf[0] == len);
+    let back = Range::read_from(Cursor::new(&buf[..len as usize + 2]));
+    assert!(back.is_ok());
+    let back = back.unwrap();
+    assert!(back.base.len == len && back.prefix_len == prefix_len);
+    let mut i = 0;
+    while i < len as usize {
+        assert!(back.base.data[i] == data[i]);
+        i += 1;
+    }
+    // bytes past the length are normalised to zero by the decoder
+    while i < 16 {
+        assert!(back.base.data[i] == 0);
+        i += 1;
+    }
+    witness!();
+}
+macro_rules! rr_inst {
+    ($($name:ident = $len:expr),*) => {$(
+        #[cfg_attr(kani, kani::proof, kani::unwind(18))]
+        pub fn $name() {
+            range_roundtrip($len)
+        }
+    )*};
+}
+rr_inst!(c16_range_roundtrip_len00 = 0, c16_range_roundtrip_len01 = 1, c16_range_roundtrip_len04 = 4,
+         c16_range_roundtrip_len06 = 6, c16_range_roundtrip_len08 = 8, c16_range_roundtrip_len15 = 15,
+         c16_range_roundtrip_len16 = 16);
+
+/// C16-H1b: Range::read_from on arbitrary bytes of the given total length: never panics; accepts iff the length byte
+/// is <= 16 and length byte + 2 bytes are present; on success the value reflects exactly those bytes
+fn range_decode_total(total: usize) {
+    let bytes: [u8; 20] = kani::any();
+    let res = Range::read_from(Cursor::new(&bytes[..total]));
+    let ok = total >= 1 && bytes[0] <= 16 && total >= bytes[0] as usize + 2;
+    assert!(res.is_ok() == ok);
+    if let Ok(r) = res {
+        assert!(r.base.len == bytes[0]);
+        assert!(r.prefix_len == bytes[1 + bytes[0] as usize]);
+        let mut i = 0;
+        while i < 16 {
+            if i < r.base.len as usize {
+                assert!(r.base.data[i] == bytes[1 + i]);
+            } else {
+                assert!(r.base.data[i] == 0);
+            }
+            i += 1;
+        }
+    }
+    witness!();
+}
+macro_rules! rd_inst {
+    ($($name:ident = $len:expr),*) => {$(
+        #[cfg_attr(kani, kani::proof, kani::unwind(18))]
+        pub fn $name() {
+            range_decode_total($len)
+        }
+    )*};
+}
+rd_inst!(c16_range_decode_total00 = 0, c16_range_decode_total01 = 1, c16_range_decode_total02 = 2,
+         c16_range_decode_total06 = 6, c16_range_decode_total10 = 10, c16_range_decode_total17 = 17,
+         c16_range_decode_total18 = 18, c16_range_decode_total20 = 20);
